@@ -1,0 +1,152 @@
+//! Verification hook H1 (compiled only with `--cfg pearl_verif`): an I/O tap that records every
+//! create / open / append / positional write / sync issued through `File`, and a failpoint table that
+//! can make the n-th matching operation fail with a chosen errno or write short.
+//! Nothing here changes behaviour unless a failpoint is armed explicitly.
+
+use std::fs::File as StdFile;
+use std::io::{Error as IOError, Result as IOResult};
+use std::os::unix::prelude::{AsRawFd, FileExt};
+use std::path::Path;
+use std::sync::Mutex;
+
+/// Operation kind
+#[derive(Debug, Clone, Copy, PartialEq, Eq)]
+pub enum Kind {
+    /// IoDriver::create
+    Create,
+    /// IoDriver::open
+    Open,
+    /// append (offset reserved from the size counter)
+    Append,
+    /// positional write
+    WriteAt,
+    /// fsync
+    Sync,
+}
+
+/// What an armed failpoint does
+#[derive(Debug, Clone, Copy, PartialEq, Eq)]
+pub enum Action {
+    /// fail with this errno, nothing written
+    Fail(i32),
+    /// write only the first n bytes, then fail with EIO
+    Short(usize),
+}
+
+/// One recorded operation
+#[derive(Debug, Clone)]
+pub struct Event {
+    /// path of the file
+    pub path: String,
+    /// kind
+    pub kind: Kind,
+    /// offset of the write (0 for others)
+    pub offset: u64,
+    /// length of the write (0 for others)
+    pub len: u64,
+    /// false if a failpoint made it fail
+    pub ok: bool,
+}
+
+struct Failpoint {
+    kind: Kind,
+    path_contains: String,
+    nth: usize,
+    seen: usize,
+    action: Action,
+}
+
+struct State {
+    recording: bool,
+    events: Vec<Event>,
+    failpoints: Vec<Failpoint>,
+}
+
+static STATE: Mutex<State> = Mutex::new(State { recording: false, events: Vec::new(), failpoints: Vec::new() });
+
+/// Start recording (clears earlier events)
+pub fn start_recording() {
+    let mut s = STATE.lock().unwrap();
+    s.recording = true;
+    s.events.clear();
+}
+
+/// Stop recording
+pub fn stop_recording() {
+    STATE.lock().unwrap().recording = false;
+}
+
+/// Take the recorded events
+pub fn take_events() -> Vec<Event> {
+    std::mem::take(&mut STATE.lock().unwrap().events)
+}
+
+/// Arm a failpoint: the `nth` (0-based) operation of `kind` on a path containing `path_contains`
+pub fn arm(kind: Kind, path_contains: &str, nth: usize, action: Action) {
+    STATE.lock().unwrap().failpoints.push(Failpoint { kind, path_contains: path_contains.to_string(), nth, seen: 0, action });
+}
+
+/// Remove all failpoints
+pub fn clear_failpoints() {
+    STATE.lock().unwrap().failpoints.clear();
+}
+
+fn path_of(file: &StdFile) -> String {
+    std::fs::read_link(format!("/proc/self/fd/{}", file.as_raw_fd()))
+        .map(|p| p.to_string_lossy().to_string())
+        .unwrap_or_default()
+}
+
+fn decide(kind: Kind, path: &str, offset: u64, len: u64) -> Option<Action> {
+    let mut s = STATE.lock().unwrap();
+    let mut action = None;
+    for fp in s.failpoints.iter_mut() {
+        if fp.kind == kind && path.contains(&fp.path_contains) {
+            if fp.seen == fp.nth && action.is_none() {
+                action = Some(fp.action);
+            }
+            fp.seen += 1;
+        }
+    }
+    if s.recording {
+        s.events.push(Event { path: path.to_string(), kind, offset, len, ok: action.is_none() });
+    }
+    action
+}
+
+pub(crate) fn hook_open(kind: Kind, path: &Path) -> Option<IOError> {
+    match decide(kind, &path.to_string_lossy(), 0, 0) {
+        Some(Action::Fail(errno)) => Some(IOError::from_raw_os_error(errno)),
+        Some(Action::Short(_)) => Some(IOError::from_raw_os_error(libc::EIO)),
+        None => None,
+    }
+}
+
+pub(crate) fn hook_bytes(file: &StdFile, kind: Kind, offset: u64, parts: &[&[u8]]) -> Option<IOResult<()>> {
+    let len: usize = parts.iter().map(|p| p.len()).sum();
+    match decide(kind, &path_of(file), offset, len as u64) {
+        None => None,
+        Some(Action::Fail(errno)) => Some(Err(IOError::from_raw_os_error(errno))),
+        Some(Action::Short(n)) => {
+            let mut left = n.min(len);
+            let mut off = offset;
+            for p in parts {
+                let k = left.min(p.len());
+                if k > 0 {
+                    let _ = file.write_all_at(&p[..k], off);
+                }
+                off += k as u64;
+                left -= k;
+            }
+            Some(Err(IOError::from_raw_os_error(libc::EIO)))
+        }
+    }
+}
+
+pub(crate) fn hook_sync(file: &StdFile) -> Option<IOResult<()>> {
+    match decide(Kind::Sync, &path_of(file), 0, 0) {
+        None => None,
+        Some(Action::Fail(errno)) => Some(Err(IOError::from_raw_os_error(errno))),
+        Some(Action::Short(_)) => Some(Err(IOError::from_raw_os_error(libc::EIO))),
+    }
+}
